@@ -164,24 +164,20 @@ theorem lookup_cacheInv (w : World) (hi : CacheInv w) (i : Nat) (name : String) 
       · simp only [hn, if_false] at hl; exact (hi j).1 n l hl
     · simp only [World.setS, hj, if_false]; exact hi j
 
-theorem create_cacheInv (w w' : World) (hi : CacheInv w) (i : Nat) (ok : Bool) (lib : Nat) (b : Bool)
-    (h : w.create i ok lib = some (w', b)) : CacheInv w' := by
-  unfold World.create at h
-  by_cases h1 : (w.sbx i).status ≠ .notCreated
-  · simp [h1] at h
-  · have h1' : (w.sbx i).status = .notCreated := by simpa using h1
-    have hempty := (hi i).2 (by rw [h1']; decide)
-    cases ok <;> simp only [h1, if_false, if_true, Bool.false_eq_true, Option.some.injEq, Prod.mk.injEq] at h <;>
-      obtain ⟨rfl, _⟩ := h <;> intro j <;> by_cases hj : j = i
-    · subst hj; simp only [World.setS, if_true]
-      exact ⟨fun n l hl => (by rw [hempty n] at hl; cases hl), fun _ n => hempty n⟩
-    · simp only [World.setS, hj, if_false]; exact hi j
-    · subst hj; simp only [World.setS, if_true]
-      exact ⟨fun n l hl => (by rw [hempty n] at hl; cases hl), fun _ n => hempty n⟩
-    · simp only [World.setS, hj, if_false]; exact hi j
+theorem create_cacheInv (w w' : World) (hi : CacheInv w) (i : Nat) (ok : Bool) (lib r : Nat) (b : Bool)
+    (h : w.create i ok lib r = some (w', b)) : CacheInv w' := by
+  obtain ⟨h1', _, _, rfl⟩ := create_cases w w' i ok lib r b h
+  have hempty := (hi i).2 (by rw [h1']; decide)
+  cases ok <;> simp only [Bool.false_eq_true, if_false, if_true] <;> intro j <;> by_cases hj : j = i
+  · subst hj; simp only [World.setS, if_true]
+    exact ⟨fun n l hl => (by rw [hempty n] at hl; cases hl), fun _ n => hempty n⟩
+  · simp only [World.setS, hj, if_false]; exact hi j
+  · subst hj; simp only [World.setS, if_true]
+    exact ⟨fun n l hl => (by rw [hempty n] at hl; cases hl), fun _ n => hempty n⟩
+  · simp only [World.setS, hj, if_false]; exact hi j
 
 theorem destroy_cacheInv (w w' : World) (hi : CacheInv w) (i : Nat) (h : w.destroy i = some w') : CacheInv w' := by
-  obtain ⟨_, _, hc, _, hoth⟩ := C14.C14_destroy_effect w w' i h
+  obtain ⟨_, _, hc, _, hoth, _⟩ := C14.C14_destroy_effect w w' i h
   intro j
   by_cases hj : j = i
   · subst hj; exact ⟨fun n l hl => (by rw [hc n] at hl; cases hl), fun _ n => hc n⟩
